@@ -93,6 +93,10 @@ def attempt_script(outcome):
                         "whole", 0.0], ["eof", 0.5]]}
 
 
+APP_ACTIONS = ["close@connecting", "close@connected", "close@ready", "close@poll", "send@connecting", "send@connected",
+               "send@ready", "close@text"]
+
+
 def expected_delay(min_wait, max_wait, k, u):
     return min_wait + u * min(max_wait - min_wait, 2 ** k)
 
@@ -104,7 +108,8 @@ class C16(Prop):
             "outcomes (connect failure, rejection, drop before/after Ready, graceful close, protocol error, unresponsive), uniform "
             "draws in [0,1) incl. 0 and 1-2^-53 served through lomond.persist.random, and the back-off index at which the exit event "
             "fires (or never). Two drivers: a duck-typed websocket replaying scripted event objects, and the real WebSocket over "
-            "the simulated transport with one script per attempt. Oracle: output = each attempt's events (same objects, same order) "
+            "the simulated transport with one script per attempt, whose consumer may call close() / send_text() at the first "
+            "Connecting / Connected / Ready / Poll / Text event of an attempt. Oracle: output = each attempt's events (same objects, same order) "
             "+ exactly one BackOff; connect() received exactly the poll/ping_rate/ping_timeout given; delay == min_wait + u * "
             "min(max_wait - min_wait, 2^k) with k = consecutive attempts without Ready; exit_event.wait called once per BackOff with "
             "that delay; the generator ends exactly when wait returned True. Non-trivial = >= 3 attempts with a Ready followed by a "
@@ -130,7 +135,13 @@ class C16(Prop):
             if real:
                 outcomes = outcomes[:8]
                 us = us[:8]
-            return {"min_wait": lo, "max_wait": hi, "outcomes": outcomes, "us": us,
+            # what the consumer does while an attempt is running (real driver): close() or a send at the first
+            # event of a given kind - legitimate at any time, and "for whatever reason" an attempt then ends
+            actions = None
+            if real:
+                actions = draw(st.lists(st.sampled_from([None, None, None] + APP_ACTIONS), min_size=len(outcomes),
+                                        max_size=len(outcomes)))
+            return {"min_wait": lo, "max_wait": hi, "outcomes": outcomes, "us": us, "actions": actions,
                     "exit_at": draw(st.one_of(st.none(), st.integers(0, len(outcomes) - 1))),
                     "poll": draw(st.sampled_from([5, 1.0, 0.5])), "ping_rate": draw(st.sampled_from([30, 0, 2.0])),
                     "ping_timeout": draw(st.sampled_from([None, 3.0])), "driver": "real" if real else "fake",
@@ -144,6 +155,14 @@ class C16(Prop):
                 for (lo, hi) in ((5, 30), (0, 0), (0, 3), (2.5, 2.5), (1, 1000)):
                     yield {"min_wait": lo, "max_wait": hi, "outcomes": list(seq), "us": [1 - 2 ** -53] * 5, "exit_at": None,
                            "poll": 5, "ping_rate": 30, "ping_timeout": None, "driver": "fake", "default_event": False}
+        def with_actions():
+            # the consumer closes / sends at every kind of event of an attempt, for every outcome that follows
+            for act in APP_ACTIONS:
+                for o in OUTCOMES:
+                    yield {"min_wait": 1, "max_wait": 9, "outcomes": [o, o, "connect_fail"], "us": [0.999] * 3,
+                           "actions": [act, None, act], "exit_at": None, "poll": 1.0, "ping_rate": 0, "ping_timeout": None,
+                           "driver": "real", "default_event": False}
+
         def outages():
             # "persist() never ends by itself": thousands of consecutive failed attempts (a long
             # outage), also with a Ready somewhere in the middle
@@ -156,7 +175,8 @@ class C16(Prop):
                         yield {"min_wait": lo, "max_wait": hi, "outcomes": seq, "us": [0.75] * n, "exit_at": None,
                                "poll": 5, "ping_rate": 30, "ping_timeout": None, "driver": "fake", "default_event": False}
         return [Enumeration("all_outcome_sequences_len5_x3", seqs, exhaustive=True),
-                Enumeration("long_outages", outages, exhaustive=True)]
+                Enumeration("long_outages", outages, exhaustive=True),
+                Enumeration("application_calls_during_attempts", with_actions, exhaustive=True)]
 
     def run_case(self, case):
         from lomond.persist import persist
@@ -204,6 +224,7 @@ class C16(Prop):
                 out = []
                 ended = False
                 backoffs = 0
+                done_actions = set()
                 limit = n if case["exit_at"] is None else case["exit_at"] + 1
                 escaped = None
                 while True:
@@ -219,6 +240,22 @@ class C16(Prop):
                         escaped = "%s: %s" % (type(error).__name__, error)
                         break
                     out.append(ev)
+                    act = (case.get("actions") or [None] * (backoffs + 1))[backoffs] if backoffs < n and \
+                        case["driver"] == "real" else None
+                    if act and act.split("@")[1] == ev.name and (backoffs, act) not in done_actions:
+                        done_actions.add((backoffs, act))
+                        labels.add("app:" + act)
+                        try:
+                            if act.startswith("close"):
+                                ws.close()
+                            else:
+                                ws.send_text("from the application")
+                        except simnet.HarnessSignal:
+                            raise
+                        except Exception as error:      # the application catches what its own calls raise
+                            if "WebSocketError" not in [c.__name__ for c in type(error).__mro__]:
+                                escaped = "application call %s raised %s: %s" % (act, type(error).__name__, error)
+                                break
                     if len(calls) > limit + 3:
                         escaped = ("%d connection attempts were made although only %d back-offs were yielded: an attempt "
                                    "ended without a BackOff (and without consulting the exit event)" % (len(calls), backoffs))
@@ -273,7 +310,7 @@ class C16(Prop):
                         i, names, [e.name for e in want]), labels, nontrivial)
             else:
                 reached = "ready" in names
-                if reached != (outcomes[i] in REACHES_READY):
+                if reached != (outcomes[i] in REACHES_READY) and not (case.get("actions") or [None] * n)[i]:
                     # the connection itself went another way than scripted (not persist()'s business)
                     return inconclusive("attempt_took_another_course", labels)
                 if not names or names[0] != "connecting" or names[-1] not in ("connect_fail", "disconnected") or \
